@@ -780,3 +780,173 @@ def mk(node: ast.AST) -> set:
 
 
 MODELS['MK'] = mk
+
+
+# ------------------------------------------------------------------ infeasible-path pruning
+
+_PURE_ITER = {'range', 'len', 'enumerate', 'zip', 'list', 'tuple', 'sorted', 'reversed', 'iter'}
+_PURE_CALLS = {'log_debug', 'log_info', 'log_warning', 'log_error', 'isinstance', 'done',
+               'cancelled', 'empty', 'qsize', 'is_set', 'startswith', 'get'}
+
+
+def test_key(test):
+    """((form, subject text), outcome-if-true) for a pure test of a name / attribute, else None.
+    Forms: truthiness (`E`, `not E`) and `E is None` / `E is not None`."""
+    pol = True
+    while isinstance(test, ast.UnaryOp) and isinstance(test.op, ast.Not):
+        test = test.operand
+        pol = not pol
+    if isinstance(test, (ast.Name, ast.Attribute)):
+        return ('truth', norm(test)), pol
+    if isinstance(test, ast.Compare) and len(test.ops) == 1 and \
+            isinstance(test.ops[0], (ast.Is, ast.IsNot)) and \
+            isinstance(test.comparators[0], ast.Constant) and test.comparators[0].value is None \
+            and isinstance(test.left, (ast.Name, ast.Attribute)):
+        if isinstance(test.ops[0], ast.IsNot):
+            pol = not pol
+        return ('isnone', norm(test.left)), pol
+    return None
+
+
+def invalidated_keys(node, keys):
+    """Which of the tested subjects may change when `node` executes? A local name changes only by
+    an assignment to it; an attribute also by any call / await that is not known to be pure."""
+    a = node.ast
+    if a is None or node.kind in ('branch', 'entry', 'exit', 'raise', 'join', 'dispatch', 'handler'):
+        return set()
+    from .dataflow import node_defs
+    defs = set(node_defs(node))
+    impure = node.kind == 'with_exit'
+    roots = [a.iter] if node.kind == 'for' else ([i.context_expr for i in a.items]
+                                                 if node.kind == 'with' else
+                                                 ([] if node.kind == 'with_exit' else [a]))
+    for r in roots:
+        for x in walk_shallow(r):
+            if isinstance(x, ast.Await):
+                impure = True
+            elif isinstance(x, ast.Call):
+                cn = call_name(x)
+                if node.kind == 'for' and cn in _PURE_ITER:
+                    continue
+                if cn in _PURE_CALLS:
+                    continue
+                impure = True
+    dead = set()
+    for k in keys:
+        subj = k[1]
+        if subj.isidentifier():
+            if subj in defs:
+                dead.add(k)
+        else:
+            if impure or subj in defs or any(d == subj for d in defs):
+                dead.add(k)
+    return dead
+
+
+def _facts_after(cfg, facts, nid):
+    n = cfg.nodes[nid]
+    if n.kind == 'branch':
+        k = test_key(n.test.ast)
+        if k is None:
+            # a compound test: use its decomposed facts
+            d = dict(facts)
+            for e, p in decompose(n.test.ast, n.polarity):
+                kk = test_key(e)
+                if kk is None:
+                    continue
+                outcome = kk[1] if p else (not kk[1])
+                if kk[0] in d and d[kk[0]] != outcome:
+                    return None
+                d[kk[0]] = outcome
+            return frozenset(d.items())
+        key, pol_if_true = k
+        outcome = pol_if_true if n.polarity else (not pol_if_true)
+        d = dict(facts)
+        if key in d and d[key] != outcome:
+            return None
+        d[key] = outcome
+        return frozenset(d.items())
+    if n.kind == 'stmt' and isinstance(n.ast, ast.Assert):
+        k = test_key(n.ast.test)
+        if k is not None:
+            d = dict(facts)
+            d[k[0]] = k[1]
+            return frozenset(d.items())
+        return facts
+    if n.kind == 'stmt' and isinstance(n.ast, ast.Assign) and len(n.ast.targets) == 1 and \
+            isinstance(n.ast.targets[0], ast.Name) and isinstance(n.ast.value, ast.Constant) and \
+            (n.ast.value.value is None or isinstance(n.ast.value.value, bool)):
+        # `x = True / False / None` establishes the outcome of later tests of x
+        d = {k: v for k, v in facts if k[1] != n.ast.targets[0].id}
+        d[('truth', n.ast.targets[0].id)] = bool(n.ast.value.value)
+        if n.ast.value.value is None:
+            d[('isnone', n.ast.targets[0].id)] = True
+        elif isinstance(n.ast.value.value, bool):
+            d[('isnone', n.ast.targets[0].id)] = False
+        return frozenset(d.items())
+    if facts:
+        dead = invalidated_keys(n, [k for k, _ in facts])
+        if dead:
+            return frozenset((k, v) for k, v in facts if k not in dead)
+    return facts
+
+
+def path_pruned(cfg, start, targets, avoid=(), start_successors_only=True, init_facts=None):
+    """Like CFG.path_avoiding, but paths that contradict the outcome of an earlier, still valid
+    pure test (`if stop:` after `if not stop:` without a write of stop in between) are pruned."""
+    from collections import deque as _dq
+    tids = {t.id for t in targets}
+    avoid_ids = {a.id for a in avoid}
+    f0 = _facts_after(cfg, frozenset(init_facts or ()), start.id)
+    if f0 is None:
+        return None
+    init = (start.id, f0)
+    prev = {init: None}
+    dq = _dq([init])
+    if start.id in tids and not start_successors_only:
+        return [start]
+    while dq:
+        cur = dq.popleft()
+        u, facts = cur
+        for v, lab in cfg.succ[u]:
+            nf = _facts_after(cfg, facts, v)
+            if nf is None:
+                continue
+            if v in tids and (v == start.id or v not in avoid_ids):
+                chain = [(v, nf), cur]
+                while prev[chain[-1]] is not None:
+                    chain.append(prev[chain[-1]])
+                return [cfg.nodes[c[0]] for c in reversed(chain)]
+            if v in avoid_ids:
+                continue
+            nxt = (v, nf)
+            if nxt in prev:
+                continue
+            prev[nxt] = cur
+            dq.append(nxt)
+    return None
+
+
+def stable_guard_facts(cfg, node):
+    """Outcomes of dominating pure tests of *local names* that still hold at `node`: the name is
+    not re-defined on any path from the branch to the node."""
+    from .dataflow import node_defs
+    dom = cfg.dominators()
+    res = {}
+    if node.id not in dom:
+        return frozenset()
+    for did in sorted(dom[node.id]):
+        d = cfg.nodes[did]
+        if d.kind != 'branch':
+            continue
+        for e, p in decompose(d.test.ast, d.polarity):
+            k = test_key(e)
+            if k is None or not k[0][1].isidentifier():
+                continue
+            subj = k[0][1]
+            between = cfg.reachable_from(d, avoid=[node])
+            redefined = any(subj in node_defs(cfg.nodes[i]) for i in between
+                            if i != node.id and node.id in cfg.reachable_from(cfg.nodes[i]))
+            if not redefined:
+                res[k[0]] = k[1] if p else (not k[1])
+    return frozenset(res.items())
